@@ -98,7 +98,7 @@ def check(ck):
         if len(res) != 1 or res[0][1][0] != "return":
             problems.append("send_content does not complete (%r)" % ((res[0][1][:2] if res else None),))
         fixed = emitted[:2]
-        if [k.lower() for (k, _v) in fixed] != ["content-type", "content-length"] or fixed[0][1] != "application/json-rpc" or fixed[1][1] != "8":
+        if sorted((k.lower(), v) for (k, v) in fixed) != [("content-length", "8"), ("content-type", "application/json-rpc")]:
             problems.append("the fixed headers are %r (required first: Content-Type from the configuration, Content-Length = byte length 8)" % (fixed,))
         custom = emitted[2:]
         ua = [(k, v) for (k, v) in custom if k.lower() == "user-agent"]
